@@ -617,6 +617,21 @@ func c10Replay(c Case) (bool, string) {
 func init() {
 	Parts["C10real"] = Part{"C10", C10real}
 	Replayers["C10"] = func(c Case) (bool, string) {
+		if c["op"] == "persist" {
+			var path []int
+
+			s := c["path"]
+			for _, f := range bytes.Fields([]byte(s[1 : len(s)-1])) {
+				var i int
+				fmt.Sscan(string(f), &i)
+				path = append(path, i)
+			}
+
+			key, detail := c10PersistRun(path, c10Ops())
+
+			return key == "", key + " " + detail
+		}
+
 		if c["op"] == "replay13" {
 			var (
 				st  c10State
